@@ -162,6 +162,7 @@ def run(
     xmx: str | None = None,
     dfs: bool = False,
     check: bool = True,
+    module_text: str | None = None,
 ) -> TLCResult:
     """Run TLC on `module` (path to .tla) with the given cfg. Raises TLCMachineryError on crash/parse errors."""
     module = Path(module)
@@ -169,6 +170,10 @@ def run(
         module = SPEC / module
     tmp = Path(tempfile.mkdtemp(prefix="verif-tlc-"))
     try:
+        if module_text is not None:
+            # a generated wrapper module (e.g. constants that a cfg cannot express); it EXTENDS modules of spec/
+            module = tmp / module.name
+            module.write_text(module_text)
         if cfg_text is not None:
             cfgp = tmp / (module.stem + ".cfg")
             cfgp.write_text(cfg_text)
